@@ -32,11 +32,11 @@ def mutants(which):
         for d in sorted(glob.glob('/tmp/seed/*/out/m*/patch.diff')):
             parts = d.split('/')
             ms.append(('tmp/%s-%s' % (parts[3], parts[5]), d, False))
-    if 'seed3' in which:
+    if 'seed3x' in which:
         for d in sorted(glob.glob('/tmp/seed3/*/out/[mr]*/patch.diff')):
             parts = d.split('/')
             ms.append(('seed3/%s-%s' % (parts[3], parts[5]), d, False))
-    if 'seed4' in which:
+    if 'seed4x' in which:
         for d in sorted(glob.glob('/tmp/seed4/*/out/[mr]*/patch.diff')):
             parts = d.split('/')
             ms.append(('seed4/%s-%s' % (parts[3], parts[5]), d, False))
